@@ -1,6 +1,7 @@
 package c02
 
 import (
+	"os"
 	"encoding/json"
 	"fmt"
 	"math/rand"
@@ -78,9 +79,12 @@ func Programs(ctx *core.Ctx, f Family, limit int) ([][]Op, int, int, error) {
 // giantLists runs programs whose single WriteCompressed call holds more
 // objects than one object stream may have.
 func giantLists(ctx *core.Ctx) error {
-	sizes := []int{10001}
+	// (30000 and more objects: the cross-reference stream the Writer makes for
+	// them compresses so well that it runs into the Reader's entry cap, which
+	// is tied to the compressed size: recorded finding roundtrip/.../xref-entry-cap)
+	sizes := []int{10001, 30000}
 	if ctx.Thorough() {
-		sizes = []int{9999, 10000, 10001, 20003}
+		sizes = []int{9999, 10000, 10001, 20003, 30000, 60000}
 	}
 	var jobs []Job
 	for i, n := range sizes {
@@ -115,6 +119,9 @@ func giantLists(ctx *core.Ctx) error {
 		}
 		for range bad {
 			key, what := classifyFailure(r)
+			if strings.Contains(r.OpenErr, "invalid cross-reference table") && len(jobs[i].Prog[1].Ns) > 20003 {
+				key = "roundtrip/giant-list/xref-entry-cap"
+			}
 			ctx.Violation(key+"/giant-list", what+fmt.Sprintf(" (one WriteCompressed call with %d objects)", len(jobs[i].Prog[1].Ns)),
 				map[string]any{"cfg": r.Cfg, "giant": len(jobs[i].Prog[1].Ns), "seed": jobs[i].Seed})
 		}
@@ -402,6 +409,9 @@ func encClass(c Config) string {
 }
 
 func run(ctx *core.Ctx) error {
+	if os.Getenv("VERIF_C02_ONLY") == "giant" { // developer switch: this part alone
+		return giantLists(ctx)
+	}
 	ctx.Ev.Rule = "a case is one write program executed on pdf.Writer under one configuration, reopened with pdf.Reader; non-trivial = the file closes and holds at least two program objects; distinct = distinct (program, configuration)"
 	ctx.Ev.Assume("value ids are recognised by structural equality of what the Reader returns with the concrete values written (the projection function of the harness)")
 	ctx.Ev.Assume("filtered streams on non-seekable sinks are not replayed against the model (the filter's internal buffering decides when the 1024-byte threshold is crossed); C06 covers them")
